@@ -250,3 +250,19 @@ Theorem C01_b1_sound_refuted :
     end.
 Proof. exists c01c_world, c01c_opts, [1]. vm_compute. repeat split; reflexivity. Qed.
 Print Assumptions C01_b1_sound_refuted.
+
+(* the per-case judgements of "nothing unreachable is present" mean what they say: when the extracted
+   procedure answers true, every entry of the graph is reachable from the roots (and configured import
+   targets) along recorded redirects and the recorded dependencies of module entries *)
+From DG Require Proofs.ReachJudge.
+Theorem C01_b1_judge_sound : forall W g starts,
+  RunJsrAll.b1_orphan_free W g starts false = true ->
+  forall s sl, In (s, sl) (bg_slots g) -> ReachJudge.Reaches (RunJsrAll.b1_edges W g false) starts s.
+Proof. intros W g starts. exact (ReachJudge.b1_judge_sound W g starts false). Qed.
+Print Assumptions C01_b1_judge_sound.
+
+Theorem C01_registry_judge_sound : forall W g roots,
+  RunJsr.orphan_free_gen W g roots false false = true ->
+  forall s sl, In (s, sl) (Jsr.jg_slots g) -> ReachJudge.Reaches (RunJsr.graph_edges W g false false) roots s.
+Proof. intros W g roots. exact (ReachJudge.registry_judge_sound W g roots false false). Qed.
+Print Assumptions C01_registry_judge_sound.
